@@ -17,7 +17,7 @@ from sr.pipeline import sym_ab, symbolic_pipeline
 from sr.symreal import conj, lift, model_value, same_cell
 
 from . import matrix_common as mc
-from . import replays
+from . import replays, replays_matrix
 
 from .c10_meta import TERMS, _printed, frame, metadata_findings
 
@@ -32,7 +32,7 @@ def run(check: Check) -> None:
     )
     check.info["rule"] = "configuration = (ordered term family from a 14-term menu incl. unsorted-factor / zero-column / multi-column terms, intercept, rank mode, output)"
     check.bounds.update({"terms_per_formula": "<=3", "rows": mc.NROWS, "subsets": "every non-empty subset of <=2 terms, both orders"})
-    check.out_of_scope += ["bs()/cr() multi-column transforms on symbolic data (path explosion): run at a concrete point", "sparse output"]
+    check.out_of_scope += ["bs()/cr() multi-column transforms on symbolic data (path explosion): run at a concrete point", "sparse output is read natively at one concrete point (ground companion)"]
     tmo = 60000 if thorough else 10000
     rng = random.Random(check.seed)
     df = frame()
@@ -114,6 +114,16 @@ def run(check: Check) -> None:
             rig.run_sym(check, "metadata+subset", fn, claims, replay=rep, timeout_ms=tmo, case_id=ident,
                         sample={"formula": formula, "ensure_full_rank": efr, "output": out}, record=recorded < 25)
             recorded += 1
+            # ground companion: the same metadata reading on sparse output (native; scipy cannot hold symbolic cells)
+            p = {"kind": "c10_meta", "formula": formula, "efr": efr, "output": "sparse", "terms": fam, "tag": None}
+            try:
+                mms = model_matrix(formula, replays_matrix._c10_frame(), ensure_full_rank=efr, output="sparse")
+                found = metadata_findings(mms, "sparse", fam)
+            except Exception as e:
+                found = [("metadata-inconsistent", f"sparse build raised {type(e).__name__}: {e}")]
+            check.obligation("metadata.sparse/ground", "refuted" if any("[factors not in sorted order]" not in t for t, _ in found) else "ground")
+            for tag, msg in found:
+                check.violation(f"metadata::{tag}", f"(sparse output) {msg}", dict(p, tag=tag))
     # multi-column spline transforms at a concrete point (ground)
     for formula in ("bs(a, df=4) + B:A", "cr(a, df=3):A + b", "0 + A:bs(b, df=3)"):
         for efr in (True, False):
